@@ -2,6 +2,7 @@ package checks
 
 import (
 	"fmt"
+	apierrors "k8s.io/apimachinery/pkg/api/errors"
 	"math"
 	"sort"
 	"strings"
@@ -28,9 +29,9 @@ import (
 // C15 — drift: hash sensitivity / insensitivity, no self-inflicted drift, drift on relevant changes.
 
 type npEdit struct {
-	name    string
-	hashed  bool // documented as drift-relevant (must change the hash) or not (must not)
-	apply   func(np *v1.NodePool) bool // returns false if the edit is a no-op on this base
+	name   string
+	hashed bool                       // documented as drift-relevant (must change the hash) or not (must not)
+	apply  func(np *v1.NodePool) bool // returns false if the edit is a no-op on this base
 }
 
 func nd(s string) v1.NillableDuration { return v1.MustParseNillableDuration(s) }
@@ -51,7 +52,9 @@ func c15Bases() map[string]*v1.NodePool {
 
 func c15Edits() []npEdit {
 	var out []npEdit
-	add := func(name string, hashed bool, f func(np *v1.NodePool) bool) { out = append(out, npEdit{name, hashed, f}) }
+	add := func(name string, hashed bool, f func(np *v1.NodePool) bool) {
+		out = append(out, npEdit{name, hashed, f})
+	}
 	t := func(np *v1.NodePool) *v1.NodeClaimTemplate { return &np.Spec.Template }
 	add("label added", true, func(np *v1.NodePool) bool { labelMod("tier", "web")(np); return true })
 	add("label value changed", true, func(np *v1.NodePool) bool {
@@ -75,7 +78,10 @@ func c15Edits() []npEdit {
 		t(np).Annotations["extra"] = "1"
 		return true
 	})
-	add("taint added", true, func(np *v1.NodePool) bool { taintMod(corev1.Taint{Key: "c", Value: "3", Effect: corev1.TaintEffectNoSchedule})(np); return true })
+	add("taint added", true, func(np *v1.NodePool) bool {
+		taintMod(corev1.Taint{Key: "c", Value: "3", Effect: corev1.TaintEffectNoSchedule})(np)
+		return true
+	})
 	add("taint value changed", true, func(np *v1.NodePool) bool {
 		if len(t(np).Spec.Taints) == 0 {
 			return false
@@ -97,7 +103,10 @@ func c15Edits() []npEdit {
 		t(np).Spec.Taints = t(np).Spec.Taints[1:]
 		return true
 	})
-	add("startup taint added", true, func(np *v1.NodePool) bool { startupMod(corev1.Taint{Key: "boot2", Effect: corev1.TaintEffectNoSchedule})(np); return true })
+	add("startup taint added", true, func(np *v1.NodePool) bool {
+		startupMod(corev1.Taint{Key: "boot2", Effect: corev1.TaintEffectNoSchedule})(np)
+		return true
+	})
 	add("taint moved to startup taints", true, func(np *v1.NodePool) bool {
 		if len(t(np).Spec.Taints) == 0 {
 			return false
@@ -137,8 +146,14 @@ func c15Edits() []npEdit {
 		})
 	}
 	// ---- documented as non-drifting
-	add("budgets changed", false, func(np *v1.NodePool) bool { np.Spec.Disruption.Budgets = []v1.Budget{{Nodes: "1"}, {Nodes: "50%", Reasons: []v1.DisruptionReason{v1.DisruptionReasonDrifted}}}; return true })
-	add("requirement added", false, func(np *v1.NodePool) bool { reqsMod(oracle.R(corev1.LabelArchStable, corev1.NodeSelectorOpIn, "amd64"))(np); return true })
+	add("budgets changed", false, func(np *v1.NodePool) bool {
+		np.Spec.Disruption.Budgets = []v1.Budget{{Nodes: "1"}, {Nodes: "50%", Reasons: []v1.DisruptionReason{v1.DisruptionReasonDrifted}}}
+		return true
+	})
+	add("requirement added", false, func(np *v1.NodePool) bool {
+		reqsMod(oracle.R(corev1.LabelArchStable, corev1.NodeSelectorOpIn, "amd64"))(np)
+		return true
+	})
 	add("requirement values changed", false, func(np *v1.NodePool) bool {
 		if len(t(np).Spec.Requirements) == 0 {
 			return false
@@ -153,9 +168,15 @@ func c15Edits() []npEdit {
 		t(np).Spec.Requirements[0].MinValues = two()
 		return true
 	})
-	add("limits changed", false, func(np *v1.NodePool) bool { np.Spec.Limits = v1.Limits{corev1.ResourceCPU: resource.MustParse("100")}; return true })
+	add("limits changed", false, func(np *v1.NodePool) bool {
+		np.Spec.Limits = v1.Limits{corev1.ResourceCPU: resource.MustParse("100")}
+		return true
+	})
 	add("weight changed", false, func(np *v1.NodePool) bool { weight(7)(np); return true })
-	add("consolidationPolicy changed", false, func(np *v1.NodePool) bool { np.Spec.Disruption.ConsolidationPolicy = v1.ConsolidationPolicyWhenEmpty; return true })
+	add("consolidationPolicy changed", false, func(np *v1.NodePool) bool {
+		np.Spec.Disruption.ConsolidationPolicy = v1.ConsolidationPolicyWhenEmpty
+		return true
+	})
 	add("consolidateAfter changed", false, func(np *v1.NodePool) bool { np.Spec.Disruption.ConsolidateAfter = nd("5m"); return true })
 	add("taints reordered", false, func(np *v1.NodePool) bool {
 		if len(t(np).Spec.Taints) < 2 {
@@ -180,7 +201,11 @@ func c15Edits() []npEdit {
 		t(np).Labels = m
 		return true
 	})
-	add("status and metadata changed", false, func(np *v1.NodePool) bool { np.Labels = map[string]string{"x": "y"}; np.Status.Resources = corev1.ResourceList{corev1.ResourceCPU: resource.MustParse("3")}; return true })
+	add("status and metadata changed", false, func(np *v1.NodePool) bool {
+		np.Labels = map[string]string{"x": "y"}
+		np.Status.Resources = corev1.ResourceList{corev1.ResourceCPU: resource.MustParse("3")}
+		return true
+	})
 	return out
 }
 
@@ -329,6 +354,61 @@ func c15World(r *ev.Rec) {
 				l.Violation("self-inflicted drift: "+got+" (NodeClaim created between a template edit and the hash controller's next run)", fmt.Sprintf("NodeClaim created from the CURRENT template right after a hashed edit, launched as %s, is reported Drifted (%s) once the hash controller has caught up  [NodePool requirement {%s}]", launch, got, oracle.ReqString(req)), map[string]any{"nodepool_requirement": req, "launch": launch})
 			}
 		}()
+		// (00) a write to the NodeClaim FAILS once somewhere between launch and initialization (every position), the
+		// controller retries, and the NodeClaim — created from the unchanged NodePool — must still not be drifted
+		for n := 1; n <= 7; n++ {
+			env, nc, _ := build()
+			if nc == nil {
+				break
+			}
+			w := env.W
+			lc := lifecycle.NewController(w.Clock, w.Client, w.CP, w.Rec, nodepoolhealth.NewState(), nil)
+			writes, failedCall := 0, ""
+			w.Client.Hook = func(c *world.Call) error {
+				if c.Kind == "NodeClaim" && (c.Verb == "patch" || c.Verb == "status-patch" || c.Verb == "update" || c.Verb == "status-update") {
+					writes++
+					if writes == n {
+						failedCall = c.String()
+						return apierrors.NewInternalError(fmt.Errorf("injected transient failure"))
+					}
+				}
+				return nil
+			}
+			rec := func() {
+				if cur := w.GetNodeClaim(nc.Name); cur != nil {
+					_, _ = lc.Reconcile(w.Ctx, cur)
+				}
+			}
+			rec()
+			rec()
+			rec()
+			cur := w.GetNodeClaim(nc.Name)
+			if cur == nil || cur.Status.ProviderID == "" || w.CP.Instance(cur.Status.ProviderID) == nil {
+				continue
+			}
+			nodeName := "node-" + nc.Name
+			w.KubeletRegister(cur, world.RegisterOpts{NotReadyTaint: true})
+			rec()
+			rec()
+			w.KubeletReady(nodeName)
+			w.RemoveStartupTaints(nodeName, cur)
+			w.ReportExtended(nodeName, cur)
+			rec()
+			rec()
+			w.Client.Hook = nil
+			rec()
+			rec()
+			if failedCall == "" {
+				break // fewer than n writes happen in a launch: every position has been covered
+			}
+			dc := nodeclaimdisruption.NewController(w.Clock, w.Client, w.CP)
+			_, _ = dc.Reconcile(w.Ctx, w.GetNodeClaim(nc.Name))
+			l.Eval()
+			if got := driftedOf(w.GetNodeClaim(nc.Name)); got != "" {
+				l.Violation("self-inflicted drift: "+got+" (after a failed NodeClaim write during launch)", fmt.Sprintf("write #%d to the NodeClaim (%s) failed once and was retried; the NodeClaim, created from the unchanged NodePool, is reported Drifted (%s); labels %v  [NodePool requirement {%s}]", n, failedCall, got, w.GetNodeClaim(nc.Name).Labels, oracle.ReqString(req)), map[string]any{"nodepool_requirement": req, "failed_write": failedCall})
+				break
+			}
+		}
 		k := len(env0.W.CP.Permitted(nc0))
 		if k > maxLaunch {
 			k = maxLaunch
@@ -406,7 +486,7 @@ func c15World(r *ev.Rec) {
 func init() {
 	register("C15", "exploration", func(r *ev.Rec) {
 		r.Rule = "(a) 3 base NodePool templates (full / minimal / zero-valued durations) x every single-field edit from a closed list: edits of template labels, annotations, taints, startupTaints, nodeClassRef.{group,kind,name}, terminationGracePeriod in {unset,0s,30s,1m}, expireAfter in {Never,0s,10m,1h} must change NodePool.Hash(); edits of budgets, requirements, limits, weight, consolidation settings, list/map order, metadata and status must not. " +
-			"(b) every satisfiable single-requirement NodePool on a custom / provider key x pods constraining that key: hash controller -> provisioner -> NodeClaim -> real lifecycle controller with EVERY permitted launch (up to 4/12) -> real nodeclaim.disruption controller: never Drifted when fresh (also 2h later, and when created between a hashed template edit and the hash controller's next run); RequirementsDrifted when the NodePool is edited to exclude the node's zone and cleared when restored; NodePoolDrifted after a hashed edit + real hash controller; not across hash versions. non-trivial = distinct (base, effective edit) / (pool requirement, pod, launch)"
+			"(b) every satisfiable single-requirement NodePool on a custom / provider key x pods constraining that key: hash controller -> provisioner -> NodeClaim -> real lifecycle controller with EVERY permitted launch (up to 4/12) -> real nodeclaim.disruption controller: never Drifted when fresh (also 2h later, when created between a hashed template edit and the hash controller's next run, and when one of the NodeClaim writes between launch and initialization failed once and was retried — every position); RequirementsDrifted when the NodePool is edited to exclude the node's zone and cleared when restored; NodePoolDrifted after a hashed edit + real hash controller; not across hash versions. non-trivial = distinct (base, effective edit) / (pool requirement, pod, launch)"
 		r.Assumptions = []string{"provider-side IsDrifted returns no drift", "NodePools no label value can satisfy are excluded from (b)"}
 		c15Hash(r)
 		c15World(r)
